@@ -9048,17 +9048,15 @@ bool SoPlexBase<R>::_parseSettingsLine(char* line, const int lineNumber)
          else if(strncmp(paramName, _currentSettings->boolParam.name[param].c_str(),
                          SPX_SET_MAX_LINE_LEN) == 0)
          {
-            if(strncasecmp(paramValueString, "true", 4) == 0
-                  || strncasecmp(paramValueString, "TRUE", 4) == 0
-                  || strncasecmp(paramValueString, "t", 4) == 0
-                  || strncasecmp(paramValueString, "T", 4) == 0
-                  || strtol(paramValueString, nullptr, 4) == 1)
+            // the whole value has to be one of the literals: a prefix ("truex") or any non-numeric text (which strtol
+            // turns into 0) is not a boolean
+            if(strcasecmp(paramValueString, "true") == 0
+                  || strcasecmp(paramValueString, "t") == 0
+                  || strcmp(paramValueString, "1") == 0)
                success = setBoolParam((SoPlexBase<R>::BoolParam)param, true);
-            else if(strncasecmp(paramValueString, "false", 5) == 0
-                    || strncasecmp(paramValueString, "FALSE", 5) == 0
-                    || strncasecmp(paramValueString, "f", 5) == 0
-                    || strncasecmp(paramValueString, "F", 5) == 0
-                    || strtol(paramValueString, nullptr, 5) == 0)
+            else if(strcasecmp(paramValueString, "false") == 0
+                    || strcasecmp(paramValueString, "f") == 0
+                    || strcmp(paramValueString, "0") == 0)
                success = setBoolParam((SoPlexBase<R>::BoolParam)param, false);
             else
                success = false;
@@ -9578,17 +9576,15 @@ bool SoPlexBase<R>::parseSettingsString(char* string)
          else if(strncmp(paramName, _currentSettings->boolParam.name[param].c_str(),
                          SPX_SET_MAX_LINE_LEN) == 0)
          {
-            if(strncasecmp(paramValueString, "true", 4) == 0
-                  || strncasecmp(paramValueString, "TRUE", 4) == 0
-                  || strncasecmp(paramValueString, "t", 4) == 0
-                  || strncasecmp(paramValueString, "T", 4) == 0
-                  || strtol(paramValueString, nullptr, 4) == 1)
+            // the whole value has to be one of the literals: a prefix ("truex") or any non-numeric text (which strtol
+            // turns into 0) is not a boolean
+            if(strcasecmp(paramValueString, "true") == 0
+                  || strcasecmp(paramValueString, "t") == 0
+                  || strcmp(paramValueString, "1") == 0)
                success = setBoolParam((SoPlexBase<R>::BoolParam)param, true);
-            else if(strncasecmp(paramValueString, "false", 5) == 0
-                    || strncasecmp(paramValueString, "FALSE", 5) == 0
-                    || strncasecmp(paramValueString, "f", 5) == 0
-                    || strncasecmp(paramValueString, "F", 5) == 0
-                    || strtol(paramValueString, nullptr, 5) == 0)
+            else if(strcasecmp(paramValueString, "false") == 0
+                    || strcasecmp(paramValueString, "f") == 0
+                    || strcmp(paramValueString, "0") == 0)
                success = setBoolParam((SoPlexBase<R>::BoolParam)param, false);
             else
                success = false;
